@@ -448,7 +448,15 @@ class ReuseTOML(GlobalLicensing):
             raise GlobalLicensingParseError(
                 str(error), source=source
             ) from error
-        return cls.from_dict(tomldict, source)
+        try:
+            return cls.from_dict(tomldict, source)
+        except GlobalLicensingParseError:
+            raise
+        except ValueError as error:
+            # E.g. an integer that is too long to be quoted in a message.
+            raise GlobalLicensingParseError(
+                str(error), source=source
+            ) from error
 
     @classmethod
     def from_file(cls, path: StrPath, **kwargs: Any) -> "ReuseTOML":
